@@ -29,6 +29,9 @@ def run(ctx):
         if u is not None:
             rule_P4_bound(ctx, cls)
     rule_P8(ctx)
+    from ..persist import rule_P7n
+    k7 = rule_P7n(ctx)
+    ctx.require(k7 >= 8, 'P7n found only %d uses of optional members (floor 8)' % k7)
     k13 = rule_P13(ctx)
     from ..effects import rule_G2
     rule_G2(ctx)      # every restored network / member is its own object
